@@ -10,7 +10,8 @@ DECIDED = ("R3.1 who-may-write: every raw-memory write in the crate (raw copy/wr
            "buffer, the platform FFI table, the dsb/isb barrier}; R3.2 the copy is exact (count == len of the very slice whose pointer is the "
            "source); R3.3 in every variant of every install root and of the guard destructor each code write targets the faked function's "
            "entry, the mapping allocated by the same installation, or the guard's saved address; R3.4 entry writes are at most 16 bytes; "
-           "R3.6 exactly one mapping per installation (none on 32-bit ARM)")
+           "R3.6 exactly one mapping per installation (none on 32-bit ARM); R3.7 the release primitive is called only on the allocator's reject edge "
+           "and in the guard's destructor, each time with the very mapping the injector obtained")
 NOT_DECIDED = "effects inside the OS calls; identical-code folding by the linker (two functions sharing one address)"
 
 FFI_ALLOWED = {
@@ -115,6 +116,14 @@ def run(ck, models, tier):
             elif kind == "indirect":
                 ck.ob("R3.1", "indirect-call/%s" % short(fn), tm.target, False, "indirect call in %s: callee unknown, could write anywhere" % short(fn), w)
         ck.floor("R3.1", "raw-copy-sites", n_raw, 2, tm.target)
+        # ---------------- R3.7 nothing but the injector's own mappings is ever unmapped
+        release_rules(ck, tm, g, "R3.7")
+        if g.drop_fn and tm.arch != "arm":
+            for v in tm.variants(g.drop_fn):
+                for f in [e for e in v.trace if e.kind == "ffi" and e.name in FREE_FFI]:
+                    okp = isinstance(f.args[0], Int) and self_field(f.args[0].e) == g.jit_ptr
+                    ck.ob("R3.7", "guard-drop/releases-own-mapping", tm.target, okp,
+                          "destructor releases %s (expected self.%s, which C12 R12.1 ties to this installation's allocation)" % (fmt(f.args[0].e, 3), g.jit_ptr), where(f))
         for key, m in list(tm.machines.items()):
             for f in m.entered:
                 ck.analysed_fn(tm.target, f)
